@@ -50,6 +50,14 @@ def binary_pass(run, prop):
     for k, n, t in texts.scale_programs(run.tier == 'quick'):
         if not k.startswith(('nested', 'nots', 'subscript', 'operands', 'arguments', 'list-elements', 'params')):
             texts_.append((k, n, t))
+    # WIDE valid programs (width is not depth): one block of n statements, n blocks, n list elements, n arguments, n poetic words
+    for n in big:
+        texts_.append(('wide:statements', n, 'say 1\n' * n))
+        texts_.append(('wide:blocks', n, 'say 1\n\n' * n))
+        texts_.append(('wide:list-elements', n, 'rock x with 1' + ', 1' * n + '\n'))
+        texts_.append(('wide:arguments', n, 'say f taking 1' + ', 1' * n + '\n'))
+        texts_.append(('wide:poetic-words', n, 'x is' + ' ab' * n + '\n'))
+        texts_.append(('wide:assignments', n, 'put 1 into x\n' * n))
     os.makedirs(common.WORK, exist_ok=True)
     with tempfile.TemporaryDirectory(dir=common.WORK) as td:
         for i, (k, n, t) in enumerate(texts_):
@@ -495,6 +503,37 @@ def c13(run):
             if int(f[2]) != exp_line:
                 run.fail({'text': text, 'fault': line, 'line': exp_line, 'answer': r[:200]},
                          'the %s fault %r is on line %d but the error names line %s' % (cat, line, exp_line, f[2]))
+    # NEIGHBOURS of keywords: one keyword (or `it` / `the`, which the parser recognises by their spelling) of a valid program
+    # replaced by a word that extends it, truncates it or doubles a letter: whether and where the result is rejected
+    kn = []
+    import re as _re
+    specials = set(w for forms in rock.ALIASES.values() for w in forms if w[0].isalpha()) | {'it', 'the', 'back', 'down', 'up', 'top'}
+    for _ in range(run.n(2500, 60000)):
+        g = rock.Gen(rng, max_depth=2)
+        t = rock.Speller(rng, noise=0, comments=0, recase=0).program(g.program(depth=rng.randint(0, 1)))
+        words = [mo for mo in _re.finditer(r"[A-Za-z']+", t) if mo.group(0).lower() in specials]
+        if not words:
+            continue
+        mo = rng.choice(words)
+        w = mo.group(0)
+        nb = rng.choice([w + 's', w + 'm', w + w[-1], w[:-1] or w, w + 'x', w[0] + w, w + 'aly', w.capitalize() + 'odore'])
+        kn.append(t[:mo.start()] + nb + t[mo.end():])
+    # ... and every word of every multi-word statement form, systematically
+    forms = ['while x\nbreak it down\n', 'while x\ntake it to the top\n', 'f takes x\ngive back x\n', 'f takes x\ngive x back\n', 'listen to x\n',
+             'knock x down\n', 'build x up\n', 'turn x up\n', 'turn up x\n', 'say x is as great as y\n', 'say x is greater than y\n', 'put x into y\n',
+             'let x be y\n', 'cut x into y with z\n', 'say f taking y\n', 'f takes x and y\nsay 1\n', 'rock x with y\n', 'rock x like a rolling stone\n',
+             'roll x into y\n', 'if x\nsay 1\nelse\nsay 2\n', 'x is nothing\n', 'say it\n', 'my heart is true\n', 'the night says hello\n', 'until x\nsay 1\n',
+             'join x with y\n', 'cast x into y\n', "x's 5\n", "say x ain't y\n", 'say x and y or z nor w\n', 'say not x\n', 'say 1 over 2 times 3 minus 4 plus 5\n']
+    for f_ in forms:
+        for mo in _re.finditer(r"[A-Za-z']+", f_):
+            w = mo.group(0)
+            for nb in (w + 's', w + 'm', w + w[-1], w[:-1], w + 'x', w[0] + w, w + 'aly', w.capitalize() + 'odore', w.upper(), w[1:], w + "'"):
+                if nb and nb != w:
+                    kn.append('say 1\n' + f_[:mo.start()] + nb + f_[mo.end():])
+    run.tie(['parse ' + hx(t) for t in kn], proj=lambda r: ('err ' + r.split(' ')[2]) if r.startswith('err') else r.split(' ')[0], functional=True,
+            desc=lambda i: {'text': kn[i], 'section': 'keyword neighbours'})
+    for t in kn:
+        run.case(('kw-neighbour', t), True, kind='keyword-neighbour')
     # an odd FIRST line (what other tools treat specially: shebang, byte order mark, editor modelines, comment styles of other
     # languages, front matter), then an ordinary program with a fault further down: rejected where the model says (line 1
     # unless the first line happens to be valid Rockstar)
